@@ -114,6 +114,12 @@ def _default_inst(kind: str, variant: int = 0, rng: np.random.Generator | None =
         b = np.linspace(0, 1.0, 6)   # same length, same first and last time as A, different interior
         c = np.concatenate([a[:3], a[2] + np.linspace(0.1, 1.2, 6) ** 2])   # other length; shares its first 3 times with A
         return Inst(kind, 8, 1000.0, 8000.0, {"A": a, "B": b, "C": c}, np.linspace(4000.0, 1200.0, 6))
+    if variant == 9:
+        # A is uniform; B (same length) and C (another length) are not, but start with exactly A's first step
+        a = 0.1 * np.arange(12)
+        b = 0.1 * np.arange(12) ** 1.5
+        c = 0.1 * np.arange(17) ** 1.5
+        return Inst(kind, 9, 2500.0, 9000.0, {"A": a, "B": b, "C": c}, np.linspace(6000.0, 1500.0, 12))
     rng = rng or np.random.default_rng(variant)
     n1 = int(rng.integers(3, 14))
     n2 = n1 + int(rng.integers(1, 6))
